@@ -1,6 +1,10 @@
 use crate::CheckDef;
 
 pub mod c21;
+pub mod c22;
+pub mod c27;
+pub mod c28;
+pub mod c29;
 
 pub fn registry() -> &'static [CheckDef] {
     &[
@@ -13,6 +17,46 @@ pub fn registry() -> &'static [CheckDef] {
             cpu_budget_ms: 120_000,
             run: c21::run,
             assumptions: &["std DefaultHasher stands in for the engine's hashers (any Hasher must agree on equal values)"],
+        },
+        CheckDef {
+            id: "C22",
+            level: "exploration",
+            rule: "Case 0 enumerates a component grid (12 year widths x 12 months x boundary days; 6 hours x 4 minutes x 3 seconds x 14 nanosecond shapes; timestamps pairing them), case 1 an interval grid; further cases draw random valid values and mutate valid temporal texts (multi-byte/non-ASCII digits at every position, overflowing digit runs, truncation, sign/separator noise) through every FromStr / Interval::new and through SQL CAST / typed literals. distinct = (component shape) for round-trips, (parser, base text, accepted|rejected) for hostile inputs.",
+            floor: 100,
+            shards: 8,
+            cpu_budget_ms: 60_000,
+            run: c22::run,
+            assumptions: &["valid DATE = proleptic Gregorian year 1..9999 with a real day of month"],
+        },
+        CheckDef {
+            id: "C27",
+            level: "exploration",
+            rule: "Four case families: (0) streams of 1-6 well-formed Query/Password/Terminate frames with arbitrary payloads and a partial tail, decoded one by one; (1) every strict prefix of a valid regular and startup frame; (2) a hostile first frame (length field from {negative, 0..8, len-2..len+7, 2^24, i32::MAX}, missing/early/late NUL, invalid UTF-8, unknown type byte) followed by a well-formed frame; (3) startup/SSLRequest frames, well-formed and with hostile lengths, followed by a regular frame. The monitor records bytes consumed per decode call against the declared frame end. distinct = (family, message kind, position/cut or length class x terminator layout, decode outcome).",
+            floor: 60,
+            shards: 8,
+            cpu_budget_ms: 20_000,
+            run: c27::run,
+            assumptions: &["messages.rs is compiled into the harness unchanged via #[path]; connection.rs is not driven", "under-consumption of a malformed frame (early NUL) is not flagged: the statement only forbids consuming beyond the declared length"],
+        },
+        CheckDef {
+            id: "C28",
+            level: "exploration",
+            rule: "Random BackendMessage values of all 12 variants (empty/long/non-ASCII strings, embedded NUL with low probability, NULL/empty/binary/large row values, up to 1700 fields) are encoded after random pre-existing buffer bytes and re-parsed by an independent PostgreSQL v3 parser that demands length == bytes after the type byte and full consumption. distinct = (variant, frame-size class, has embedded NUL).",
+            floor: 25,
+            shards: 8,
+            cpu_budget_ms: 20_000,
+            run: c28::run,
+            assumptions: &["the harness parser encodes the author's reading of the PostgreSQL v3 message formats"],
+        },
+        CheckDef {
+            id: "C29",
+            level: "exploration",
+            rule: "Stores built through add_user / add_user_hashed / load_from_file (representable subset of the documented format) with names and passwords including empty, non-ASCII, ':' '#' '$' and format-prefix look-alikes; every user (plus unknown and empty names) is probed with the exact password, 3 near misses (case, spaces, NUL, prefix/suffix, extension), another user's password, and 12 MD5 responses (exact, other salt/user/password, truncated, extended, double prefix, upper-case hex, inner hash, cleartext, empty). Oracle: credential model with independently computed PostgreSQL MD5. distinct = (verifier, stored-secret kind, attempt kind, expected verdict).",
+            floor: 40,
+            shards: 16,
+            cpu_budget_ms: 120_000,
+            run: c29::run,
+            assumptions: &["md-5 and argon2 crates are trusted", "an MD5 response without the 'md5' prefix but with the right hex digest is treated as don't-care"],
         },
     ]
 }
